@@ -1,5 +1,6 @@
 import GFS.Model.Front
 import GFS.Generated.Facts
+import GFS.Lemmas.SMapLemmas
 set_option linter.unusedSimpArgs false
 set_option linter.unusedVariables false
 /-
@@ -10,7 +11,7 @@ set_option linter.unusedVariables false
   operation of the model can reach a nil dereference.
 -/
 namespace GFS.Props.C09
-open GFS GFS.Model
+open GFS GFS.Model GFS.SMapL
 
 /-! ### error answers carry a status consistent with their code -/
 
@@ -33,42 +34,6 @@ theorem model_codes_in_table :
 
 def InvB (bk : Bucket) : Prop := ∀ p ∈ bk.objects, p.2.data ≠ none
 def Inv (m : Mem) : Prop := ∀ q ∈ m.buckets, InvB q.2
-
-theorem mem_insert {α} (m : SMap α) (k : Bytes) (v : α) : ∀ p ∈ SMap.insert m k v, p = (k, v) ∨ p ∈ m := by
-  induction m with
-  | nil => intro p hp; simp [SMap.insert] at hp; exact Or.inl hp
-  | cons q rest ih =>
-    obtain ⟨k', v'⟩ := q
-    intro p hp
-    unfold SMap.insert at hp
-    split at hp
-    · rcases List.mem_cons.mp hp with h | h
-      · exact Or.inl h
-      · exact Or.inr (List.mem_cons_of_mem _ h)
-    · split at hp
-      · rcases List.mem_cons.mp hp with h | h
-        · exact Or.inl h
-        · exact Or.inr h
-      · rcases List.mem_cons.mp hp with h | h
-        · exact Or.inr (h ▸ List.mem_cons_self ..)
-        · rcases ih p h with h2 | h2
-          · exact Or.inl h2
-          · exact Or.inr (List.mem_cons_of_mem _ h2)
-
-theorem mem_erase {α} (m : SMap α) (k : Bytes) : ∀ p ∈ SMap.erase m k, p ∈ m := by
-  intro p hp
-  unfold SMap.erase at hp
-  exact (List.mem_filter.mp hp).1
-
-theorem find_mem {α} (m : SMap α) (k : Bytes) (v : α) (h : SMap.find m k = some v) : ∃ k', (k', v) ∈ m := by
-  induction m with
-  | nil => simp at h
-  | cons q rest ih =>
-    obtain ⟨k', v'⟩ := q
-    unfold SMap.find at h
-    split at h
-    · simp only [Option.some.injEq] at h; subst h; exact ⟨k', List.mem_cons_self ..⟩
-    · obtain ⟨k2, h2⟩ := ih h; exact ⟨k2, List.mem_cons_of_mem _ h2⟩
 
 theorem promote_data (o : Obj) (h : (o.promote).data = none) : o.data = none ∧ o.versions = [] := by
   unfold Obj.promote at h
@@ -163,7 +128,7 @@ theorem inv_bucket_of_find (m : Mem) (b : Bytes) (bk : Bucket) (h : Inv m) (hf :
     invariant — after any request sequence, no object is left without a current version -/
 theorem put_preserves (md5 : Bytes → Bytes) (m : Mem) (b : Bytes) (k : Key) (md : Meta) (body : Bytes) (h : Inv m) :
     Inv (m.put md5 b k md body).1 := by
-  unfold Mem.put
+  unfold Mem.put Mem.putCommit
   cases hb : SMap.find m.buckets b with
   | none => exact h
   | some bk => exact inv_insert_bucket m b _ _ h (put_inv bk k _ (inv_bucket_of_find m b bk h hb))
